@@ -1213,6 +1213,29 @@ fn check_c13_case(st: &mut Stats, case: &Case, sub: &str) {
         let mut memo = vec![];
         tree_hash(&c.code, &mut memo);
         let lenv = left_env_of(&c.code);
+        // a function whose whole code is an atom (a bare path after optimisation) occupies a LEAF of the left env
+        if let Some(l) = &lenv {
+            fn leaves(t: &T, out: &mut Vec<T>) {
+                match t {
+                    T::P(a, b) => {
+                        leaves(a, out);
+                        leaves(b, out);
+                    }
+                    a => out.push(a.clone()),
+                }
+            }
+            let mut ls = vec![];
+            leaves(l, &mut ls);
+            for a in ls {
+                let mut scratch = vec![];
+                let h = tree_hash(&a, &mut scratch);
+                if !memo.iter().any(|(hh, _)| *hh == h) {
+                    memo.push((h, a));
+                }
+            }
+        }
+        let rich_program = to_sexp(&c.code, Spell::Convert);
+        let repo_env = chialisp::compiler::compiler::extract_program_and_env(rich_program.clone());
         let replay = json!({"kind": "c13", "text": text, "sigil": sigil, "opts": optname});
         let funs: Vec<(&String, bool, &Pat, &E)> = case.prog.helpers.iter().filter_map(|h| if let Helper::Fun { name, inline, params, body } = h { Some((name, *inline, params, body)) } else { None }).collect();
         // functions of nested (mod ...) forms: their entries may or may not be in the table; when they are, they must be true too
@@ -1279,6 +1302,47 @@ fn check_c13_case(st: &mut Stats, case: &Case, sub: &str) {
                     // reference: (F &rest argv) evaluated in the source
                     let call_prog = Prog { sigil: case.prog.sigil, params: Pat::n("ARGV"), helpers: case.prog.helpers.clone(), body: E::Call((*name).clone(), vec![], Some(Box::new(E::v("ARGV")))) };
                     if let Ok(want) = reference(&call_prog, &argv) {
+                        // the repository's own way from an entry to runnable code: extract_program_and_env,
+                        // path_to_function on the quoted left env, rewrite_in_program
+                        if let (true, Some((_main, renv))) = (uses_left, &repo_env) {
+                            let in_env = lenv.as_ref().map(|l| {
+                                let mut m2 = vec![];
+                                tree_hash(l, &mut m2);
+                                fn leaf_is(t: &T, x: &T) -> bool {
+                                    match t {
+                                        T::P(a, b) => leaf_is(a, x) || leaf_is(b, x),
+                                        a => a == x,
+                                    }
+                                }
+                                m2.iter().any(|(hh, _)| *hh == h) || (matches!(code, T::A(_)) && leaf_is(l, &code))
+                            }).unwrap_or(false);
+                            match chialisp::compiler::compiler::path_to_function(renv.clone(), &h) {
+                                Some(path) => {
+                                    let composed = chialisp::compiler::compiler::rewrite_in_program(path, renv.clone());
+                                    match from_sexp(composed) {
+                                        Ok(ct) => match consensus(&ct, &argv) {
+                                            Out::Val(g) if g == want => {
+                                                st.outcome("code-reached-through-path_to_function-computes-the-function");
+                                                st.nontrivial(&(&text, optname, name, "via-entry"));
+                                            }
+                                            Out::Limit => {}
+                                            other => {
+                                                let cls = if pat_has_at(params) { "function/@-capture-in-parameter-list".to_string() } else { format!("extraction-through-the-entry-gives-other-code/{}", sub) };
+                                                st.violation(&cls, format!("{} [{}]: path_to_function + rewrite_in_program for the entry of {} on {} gives {}, the function means {}", text, optname, name, argv.short(), other.short(), want.short()), text.len(), replay.clone());
+                                            }
+                                        },
+                                        Err(e) => st.violation(&format!("extraction-unconvertible/{}", sub), format!("{} [{}]: rewrite_in_program result for {} does not convert: {}", text, optname, name, e), text.len(), replay.clone()),
+                                    }
+                                }
+                                None => {
+                                    if in_env {
+                                        st.violation(&format!("entry-does-not-lead-to-its-code/{}", sub), format!("{} [{}]: the code of {} (hash {}) occurs in the program's function environment, but path_to_function finds no path to it", text, optname, name, k), text.len(), replay.clone());
+                                    } else {
+                                        st.outcome("code-not-in-the-function-environment(no extraction claim)");
+                                    }
+                                }
+                            }
+                        }
                         match consensus(&code, &env) {
                             Out::Val(g) if g == want => {
                                 st.outcome("extracted-code-computes-the-function");
@@ -1356,6 +1420,31 @@ pub fn c13(thorough: bool, replay: Option<String>) -> i32 {
         }
         cases.extend(calls_cases(Some(s), if thorough { 3 } else { 2 }));
         cases.extend(nested_cases(Some(s)));
+        // accessor functions: the whole body is one parameter (or a constant), so after optimisation the
+        // function's code is a bare path atom (a leaf of the function environment)
+        for (k, (params, body)) in [
+            (Pat::list(vec![Pat::n("X"), Pat::n("Y")]), E::v("Y")),
+            (Pat::list(vec![Pat::n("X"), Pat::n("Y")]), E::v("X")),
+            (Pat::list_tail(vec![Pat::n("X")], Pat::n("Y")), E::v("Y")),
+            (Pat::list(vec![Pat::list(vec![Pat::n("X"), Pat::n("Y")]), Pat::n("Z")]), E::v("Y")),
+            (Pat::list(vec![Pat::n("X")]), E::int(7)),
+        ]
+        .into_iter()
+        .enumerate()
+        {
+            for with_other in [false, true] {
+                let mut helpers = vec![Helper::Fun { name: "ACC".into(), inline: false, params: params.clone(), body: body.clone() }];
+                if with_other {
+                    helpers.push(Helper::Fun { name: "OTHER".into(), inline: false, params: Pat::list(vec![Pat::n("P")]), body: E::List(vec![E::int(3), E::v("P")]) });
+                }
+                let mut ctr = 0;
+                let call_args = arg_for(&params, &mut ctr, 0);
+                let _ = call_args;
+                let body_main = E::List(vec![E::Call("ACC".into(), vec![], Some(Box::new(E::v("A")))), if with_other { E::call("OTHER", vec![E::v("B")]) } else { E::v("B") }]);
+                let mut c2 = 0;
+                cases.push(Case { prog: Prog { sigil: Some(s), params: Pat::list(vec![Pat::n("A"), Pat::n("B")]), helpers, body: body_main }, args: vec![T::list(&[arg_for(&params, &mut c2, 0), T::int(9)])], tags: vec!["accessor-functions".into(), format!("shape{}-other{}", k, with_other)] });
+            }
+        }
         let flat: Vec<usize> = if thorough { vec![1, 2, 3, 8, 16, 17, 33] } else { vec![2, 17] };
         for p in param_patterns(if thorough { 3 } else { 2 }, &flat) {
             for kind in ["defun-rest", "defun-positional"] {
